@@ -13,6 +13,7 @@ CONSTANTS
   Atomic = FALSE
   CallbacksUnderQueueLock = FALSE
   CountCooldowns = TRUE
+  FreshChannelOnWake = FALSE
 VIEW view
-INVARIANTS TypeOK CountExact ListStatusConsistent HasPeerExact OnlyActiveOffered NoEarlyReturn
+INVARIANTS TypeOK CountExact ListStatusConsistent HasPeerExact NoSleepingWaiter OnlyActiveOffered NoEarlyReturn
   CooldownNotLost QueueTimerLive CooldownsExact SlotsSuffice SingleTimer LockSane NoLockCycle
